@@ -293,7 +293,7 @@ WriteVal(st, e, r) ==
   Emit(Ev(st, <<"Write", st.auto, HasSafe(e), r.safe>>), W(r.v, IF esc THEN 1 ELSE 0))
 
 CallMacro(f, args, st, name) ==
-  LET m == st.macros[f.s[1]] IN
+  LET m == st.macros[<<f.s[1], f.n>>] IN      \* the definition this value was made from: name and the scope level it was defined at
   IF st.err # "" THEN R(Nil, st, TRUE)
   ELSE IF st.depth + 1 > MaxMacroDepth THEN R(Nil, Fail(st, "macro depth"), TRUE)
   ELSE IF Len(args) > Len(m.params) THEN R(Nil, Fail(st, "too many arguments"), TRUE)
@@ -374,7 +374,7 @@ Exec(n, st) ==
     [] n.t = "with" -> Pop(ExecSeq(n.body, ExecWith(n.pairs, 1, st, Push(st)), 1))
     [] n.t = "set" -> LET r == Eval(n.e, st) IN IF r.st.err # "" THEN r.st ELSE Bind(r.st, n.name, r.v)
     [] n.t = "macro" ->
-         Bind([st EXCEPT !.macros = (n.name :> n) @@ @], n.name, MacroV(n.name, Len(st.env)))
+         Bind([st EXCEPT !.macros = (<<n.name, Len(st.env)>> :> n) @@ @], n.name, MacroV(n.name, Len(st.env)))
     [] n.t = "cycle" ->
          LET i == GetK(st.cyc, st.path, 0) IN
          LET r == Eval(n.args[(i % Len(n.args)) + 1], st) IN
@@ -427,7 +427,7 @@ Exec(n, st) ==
                                                             /\ st.files[n.file][i].export} IN
               IF defs = {} THEN Fail(st, "import: macro not exported")
               ELSE LET d == st.files[n.file][CHOOSE i \in defs : TRUE] IN
-                   Bind([st EXCEPT !.macros = (n.as :> d) @@ @], n.as, MacroV(n.as, Len(st.env)))
+                   Bind([st EXCEPT !.macros = (<<n.as, Len(st.env)>> :> d) @@ @], n.as, MacroV(n.as, Len(st.env)))
     [] OTHER -> Fail(st, "unknown node")
 
 \* a body is executed child by child; st.path identifies the tag occurrence being executed (branch tag b, then the index),
